@@ -100,6 +100,14 @@ CHECKS = {
         note="Signs of life are SPDP DATA submessages (fresh or re-sent); ParticipantMessage liveliness assertions are not exercised (RustDDS applies them to writer liveliness only). The scripted participants' payload bytes come from RustDDS' own PL_CDR serialisers. Found and fixed: default lease 60 s instead of RTPS' 100 s (2a7d23c); a timed-out participant re-sending its announcement under the same sequence number was never rediscovered (d171d61); endpoints of a reappeared participant not rematched (ceba711, found by C07).",
         technique=TECH + "; timed obligations (safety and bounded liveness) on status events against a lease model on the simulated clock",
     ),
+    "C13": dict(
+        engine="E2",
+        category="exploration",
+        text="Seeded deterministic simulation (engine E2) of a real writer participant and a real reader participant, matched through real discovery, over a network with loss up to 20 %, duplication and jitter. The application is parked between readiness signals: it touches the reader, or re-polls a future, only after its waker was invoked or its mio source reported readable. Consumer forms: DataReader async sample stream, bare stream, no_key stream, SimpleDataReader stream (a task re-polled only when woken), mio-0.6 readiness (blocking shim Poll that drives the simulated world), mio-0.8 readiness (the real socketpair source under a real zero-timeout mio-0.8 Poll), each followed by take-until-empty; writer side: async_write against a command queue filled behind a stalled event loop, async_wait_for_acknowledgments, and wait_for_acknowledgments with a timeout (reader reachable or cut off). Oracle: 30 simulated seconds after the last write and fault every sample has reached the application, in order and unaltered; when not, one unconditional look tells a lost wake-up (the samples were there) from failed delivery; a pending future completes within 30 s once its condition holds; the synchronous wait never answers true without a possible acknowledgment, false not before its timeout, and not late.",
+        design_ref="DESIGN.md section 5 C13, section 12",
+        note="Interleaving granularity is the event loop's poll turn (seed-chosen prefixes of its pending events), datagram delivery order and the time slices between application steps. The lock-release granularity named in the property's quantifier would need yield hooks inside RustDDS (planned hook H6) and was not built: a race that needs a preemption between two statements of one event-loop turn is outside what this check can reach. Found and fixed: AsyncWaitForAcknowledgments answered Pending without leaving a waker anywhere (8d2c580).",
+        technique=TECH + "; parked-application executor (re-poll only when woken / readable) with a bounded-liveness oracle and a lost-wake-up discriminator",
+    ),
     "C20": dict(
         engine="E1",
         category="exploration",
@@ -110,7 +118,15 @@ CHECKS = {
     ),
 }
 
+PURE = "%s is a pure function of its input (%s): it has no schedule, clock, fault, interleaving or multi-party behaviour for a simulation to decide. Deterministic simulation with fault injection does not apply (DESIGN.md sections 8 and 12.6); input generation dressed in simulator vocabulary is not offered instead."
 NOT_APPLICABLE = {
+    "C10": PURE % ("QosPolicies::compliance_failure_wrt", "a pair of QoS policy sets"),
+    "C14": PURE % ("RTPS message serialisation/parsing", "a message value and a byte order") + " Incidental, unclaimed: every datagram real nodes emit in E1/E2 runs is decoded by the harness' independent codec.",
+    "C15": PURE % ("PL_CDR (de)serialisation of discovery data", "a discovery data value, extra parameters and a byte order") + " Incidental, unclaimed: the scripted participants of C11/C12 are understood by real Discovery in both byte orders.",
+    "C16": PURE % ("the cryptographic transform", "an encoded message, key material and one alteration"),
+    "C18": PURE % ("signature verification and the permissions/governance decision", "a document and a query"),
+    "C17": "A simulation target (sequences of protected/unprotected submessages against receiver state), but it needs engine E3 (security plugins with governance fixtures), which was not built in this round.",
+    "C19": "A simulation target (a three-message handshake under replay, reordering and forgery), but it needs engine E3 (security plugins, a second CA-issued identity fixture), which was not built in this round.",
 }
 
 ALL = ["C%02d" % i for i in range(1, 21)]
